@@ -26,7 +26,7 @@ from mc.drivers import prs_ops, state
 from mc.oracles import opc_ref
 
 LEVEL = "model_checking"
-RULE = ("BFS over operation histories (replay mode) from 5 initial decks; a state is non-trivial when its history "
+RULE = ("BFS over operation histories (replay mode) from 7 initial decks; a state is non-trivial when its history "
         "contains at least one mutating operation followed or preceded by a save/touch_slides (cache-sensitive) or "
         "has length >= 2; distinct = distinct canonical states (saved-package digest + populated lazy caches)")
 ASSUMPTIONS = [
@@ -106,7 +106,8 @@ SUB = [
 ]
 
 CORPUS_INIT = "corpus:features/steps/test_files/test.pptx"
-INITS = ["default", "out_of_order", "non_contiguous", CORPUS_INIT, "rich"]
+HANDOUT_INIT = "corpus:features/steps/test_files/mst-slide-layouts.pptx"   # handout master -> its own theme part
+INITS = ["default", "out_of_order", "non_contiguous", CORPUS_INIT, "rich", "names_1_5_3", HANDOUT_INIT]
 
 # content types the standard assigns to the kinds of part the alphabet creates, by part-name pattern
 CT = "application/vnd.openxmlformats-officedocument."
@@ -265,8 +266,11 @@ def run(ctx):
     if ctx.thorough:
         d_full = 3
     ctx.extra["alphabet"] = {"full": [_opsig([o]) for o in FULL], "sub": [_opsig([o]) for o in SUB]}
-    n1 = explorer.explore(ctx, System(INITS, _alphabet_full), d_full, name="full-alphabet")
-    n2 = explorer.explore(ctx, System(["default", "out_of_order", "non_contiguous", "rich"], _alphabet_sub), d_sub, name="cache-sensitive-subalphabet")
+    gen = [i for i in INITS if not i.startswith("corpus:")]
+    cor = [i for i in INITS if i.startswith("corpus:")]
+    n1 = explorer.explore(ctx, System(gen, _alphabet_full), d_full, name="full-alphabet")
+    explorer.explore(ctx, System(cor, _alphabet_full), d_full - 1, name="full-alphabet/corpus-decks")
+    n2 = explorer.explore(ctx, System(["default", "out_of_order", "non_contiguous", "rich", "names_1_5_3"], _alphabet_sub), d_sub, name="cache-sensitive-subalphabet")
     single = [op for op, s in ctx.outcomes.items() if len(s) == 0]
     if single:
         from mc.core.run import HarnessError
